@@ -149,6 +149,10 @@ func (w *world) safePick(role string, store uint64, ranges []core.KeyRange, viaC
 	if r == nil {
 		return "nil"
 	}
+	if regionh.Render(r) != regionh.Render(w.bc.GetRegion(r.GetID())) {
+		// the sub-tree handed out a RegionInfo that differs from the one currently served for this id
+		return strconv.FormatUint(r.GetID(), 10) + "~stale"
+	}
 	return strconv.FormatUint(r.GetID(), 10)
 }
 
@@ -233,7 +237,77 @@ func (w *world) exec(op string) string {
 	case len(f) == 1 && f[0] == "total":
 		return fmt.Sprintf("%d %d", bc.Regions.VerifTreeTotalSize(), bc.GetAverageRegionSize())
 	case len(f) == 2 && f[0] == "sregions":
-		return regionh.IDs(bc.GetStoreRegions(u(f[1])))
+		// the returned objects themselves: id/size/version.confver (a stale RegionInfo kept by a sub-tree shows)
+		rs := bc.GetStoreRegions(u(f[1]))
+		if len(rs) == 0 {
+			return "-"
+		}
+		var l []string
+		for _, r := range rs {
+			l = append(l, fmt.Sprintf("%d/%d/%d.%d", r.GetID(), r.GetApproximateSize(),
+				r.GetRegionEpoch().GetVersion(), r.GetRegionEpoch().GetConfVer()))
+		}
+		return strings.Join(l, ",")
+	case len(f) == 13 && f[0] == "bounce":
+		// bounce <reads> <leaderB> <region spec with leader A>: a writer goroutine transfers the leadership of one
+		// cached region back and forth between two of its voters (PutRegion) while this goroutine polls the
+		// per-store region count / size of both stores; every value seen is reported
+		reads, _ := strconv.Atoi(f[1])
+		spA := regionh.ParseSpec(f[3:])
+		spB := regionh.ParseSpec(f[3:])
+		spB.Leader = u(f[2])
+		rA, rB := spA.Region(), spB.Region()
+		var stA, stB uint64
+		for _, p := range spA.Peers {
+			if p.Id == spA.Leader {
+				stA = p.StoreId
+			}
+			if p.Id == spB.Leader {
+				stB = p.StoreId
+			}
+		}
+		bc.PutRegion(rA) // the region is cached before anybody polls (normally it already is)
+		stop := make(chan struct{})
+		done := make(chan struct{})
+		go func() {
+			defer close(done)
+			for i := 0; ; i++ {
+				select {
+				case <-stop:
+					bc.PutRegion(rB)
+					bc.PutRegion(rA)
+					return
+				default:
+				}
+				if i%2 == 0 {
+					bc.PutRegion(rB)
+				} else {
+					bc.PutRegion(rA)
+				}
+			}
+		}()
+		seen := [4]map[int64]bool{{}, {}, {}, {}}
+		for i := 0; i < reads; i++ {
+			seen[0][int64(bc.GetStoreRegionCount(stA))] = true
+			seen[1][bc.GetStoreRegionSize(stA)] = true
+			seen[2][int64(bc.GetStoreRegionCount(stB))] = true
+			seen[3][bc.GetStoreRegionSize(stB)] = true
+		}
+		close(stop)
+		<-done
+		set := func(m map[int64]bool) string {
+			var l []int64
+			for v := range m {
+				l = append(l, v)
+			}
+			sort.Slice(l, func(i, j int) bool { return l[i] < l[j] })
+			var o []string
+			for _, v := range l {
+				o = append(o, strconv.FormatInt(v, 10))
+			}
+			return strings.Join(o, ",")
+		}
+		return fmt.Sprintf("stores=%d,%d count=%s size=%s count=%s size=%s", stA, stB, set(seen[0]), set(seen[1]), set(seen[2]), set(seen[3]))
 	case len(f) == 1 && f[0] == "dump":
 		return w.dump()
 	case len(f) == 5 && f[0] == "rand":
@@ -282,6 +356,7 @@ type gen struct {
 	stores   int
 	nextID   uint64
 	nextPeer uint64
+	reads    int  // polls per bounce op (0 = no bounce ops)
 	bad      bool // malformed stream
 	kinds    map[string]int
 }
@@ -710,6 +785,37 @@ func (g *gen) mutate() {
 	}
 }
 
+// bounce: leadership of a cached region with two voters goes back and forth while the store counters are polled
+func (g *gen) bounce() {
+	for _, r := range g.sorted() {
+		var voters []pspec
+		sp := specOf(r)
+		for _, p := range sp.peers {
+			if !p.learner {
+				voters = append(voters, p)
+			}
+		}
+		var other uint64
+		for _, p := range voters {
+			if p.id != sp.leader {
+				other = p.id
+			}
+		}
+		isVoterLeader := false
+		for _, p := range voters {
+			if p.id == sp.leader {
+				isVoterLeader = true
+			}
+		}
+		if len(voters) < 2 || !isVoterLeader || other == 0 || !g.r.Bool(1, 2) {
+			continue
+		}
+		g.kinds["bounce"]++
+		g.w.run(g.t, fmt.Sprintf("bounce %d %d %s", g.reads, other, sp.String()))
+		return
+	}
+}
+
 func (g *gen) ranges() string {
 	n := g.r.Pick(3, 5, 2)
 	if n == 0 {
@@ -1009,6 +1115,9 @@ func (g *gen) sequence(maxOps int) {
 		for q, nq := 0, g.r.Range(1, 4); q < nq; q++ {
 			g.query()
 		}
+		if !g.bad && g.reads > 0 && g.r.Bool(1, 70) {
+			g.bounce()
+		}
 		if g.r.Bool(1, 6) {
 			g.w.run(g.t, "dump")
 			g.w.run(g.t, "len")
@@ -1029,6 +1138,7 @@ func main() {
 	maxOps := flag.Int("len", 120, "max mutations per sequence")
 	bad := flag.Int("malformed", 5, "one sequence in this many uses the malformed stream (0 = never)")
 	stream := flag.Uint64("stream", 0, "PRNG stream")
+	reads := flag.Int("bounce", 1500, "reads per concurrent leader-bounce op (0 = none)")
 	bulk := flag.Int("bulk", 0, "one sequence in this many is a grow-shrink-grow history with several hundred regions (0 = never)")
 	flag.Parse()
 
@@ -1042,7 +1152,7 @@ func main() {
 		}
 		return
 	}
-	g := &gen{w: w, t: t, r: rng.FromEnv(*stream), kinds: map[string]int{}}
+	g := &gen{w: w, t: t, r: rng.FromEnv(*stream), kinds: map[string]int{}, reads: *reads}
 	for s := 0; s < *n; s++ {
 		g.bad = *bad > 0 && s%*bad == *bad-1
 		if g.bad {
